@@ -43,7 +43,7 @@ theorem upstream_over_tls_and_hijack_decrypted (j k : Nat) (rq : ReqB) (rs : Res
     (hj : items[j]? = some (.connectMitm true rq rs)) (hjk : j < k)
     (h : at? sd base {} 0 items k = some (s', it)) :
     (∀ t, Ev.upstream k t ∈ (handleItem sd s' k (base + k) it).1 → t = true) ∧
-    (∀ t, Ev.hijacked k t ∈ (handleItem sd s' k (base + k) it).1 → t = true) := by
+    (∀ t tid, Ev.hijacked k t tid ∈ (handleItem sd s' k (base + k) it).1 → t = true) := by
   have hsec := at?_after_mitm sd base {} 0 items j k s' it rq rs (by omega) hjk (by simpa using hj) h
   obtain ⟨h1, h2, h3⟩ := hsec
   constructor <;> intro t <;> item_cases it then (try (intro ht; simp_all))
@@ -107,8 +107,8 @@ theorem connect_then_tunnel_same_connection (s : St) (i c : Nat) (tls : Bool) :
 /-! Non-vacuity (tests): three requests inside one TLS tunnel, the last one hijacks. -/
 example : (runConn false 0 [.connectMitm true .pass .pass, .x false .pass .pass (.ok 200 false),
       .x false .pass .pass (.ok 200 false), .x false .hijack .pass (.ok 200 false)]).filter
-      (fun e => match e with | .reqmod _ _ _ _ _ _ => true | .hijacked _ _ => true | _ => false)
+      (fun e => match e with | .reqmod _ _ _ _ _ _ => true | .hijacked _ _ _ => true | _ => false)
     = [.reqmod 0 0 false false false 0, .reqmod 1 1 true true true 2, .reqmod 2 2 true true true 2,
-       .reqmod 3 3 true true true 2, .hijacked 3 true] := by decide
+       .reqmod 3 3 true true true 2, .hijacked 3 true 2] := by decide
 
 end Martian.Props.C05
